@@ -163,6 +163,19 @@ def check(R):
                  S + 'RecvWindow::pending_ack' in isf.calls_summary and not raw, 'level == 1 && recv_window.pending_ack().is_none()',
                  ('is_full reads RecvWindow.ack_level directly' if raw else 'is_full does not consult RecvWindow::pending_ack') + ': with a complete SDU waiting to be fetched pending_ack() is None, the segment '
                  'sent in the last slot carries no ACK, and two ends that both do so can never acknowledge each other again')
+        # the counters of the receive window are bounded by the invariant level + ack_level == window_size (that is what the audited
+        # `ack_level += 1` / `buf_messages_ct += 1` sites rest on).  A handshake re-arms `level` to the full window: it has to start from reset
+        # windows, or a peer that simply repeats the handshake re-gains the window each time while ack_level / buf_messages_ct keep
+        # growing - past 255, a panic with overflow checks, a silent wrap without
+        su = R.body(S + 'Session::setup')
+        rearm = sorted({i for i, j, st in su.field_writes('level:' + S + 'RecvWindow')} | {i for i, j, st in su.field_writes('level:' + S + 'SendWindow')})
+        R.floor('re-arming of the window levels in Session::setup', len(rearm), 1)
+        for w_, what in ((S + 'RecvWindow::reset', 'receive'), (S + 'SendWindow::reset', 'send')):
+            rs_ = [t.bb for t in su.calls(w_)]
+            miss = prims.precedes(su, rs_, rearm) if rs_ else rearm
+            R.expect('P3', su.fn, f'a handshake re-arms the {what} window only after resetting it', not miss, f'{w_.split("::")[-2]}::reset precedes the re-arming',
+                     f'Session::setup sets the window level to the full window without resetting the {what} window: repeating the handshake accumulates unacknowledged segments / unfetched messages '
+                     'beyond the range of their u8 counters', su.where(rearm[0]))
         ci = R.body(S + 'RecvWindow::check_data_integrity')
         seq = [t for t in ci.calls('core::num::<impl u8>::wrapping_add')] + [t for b in F.nested(ci.fn) for t in b.calls('core::num::<impl u8>::wrapping_add')]
         okseq = False
